@@ -68,10 +68,17 @@ impl Rng {
     }
 }
 
-const LISTENERS: &[&str] = &["hA", "hB", "tC", "sD", "uE"];
+const LISTENERS: &[&str] = &["hA", "hB", "tC", "sD", "uE", "uF", "tG"];
 const CLUSTERS: &[&str] = &["c1", "c2"];
 const HFRONTS: &[&str] = &["f1", "f2", "f3", "f4"];
-const TFRONTS: &[&str] = &["t1", "t2"];
+const TFRONTS: &[&str] = &["t1", "t2", "t3"];
+const UFRONTS: &[&str] = &["u1", "u2", "u3"];
+/// malformed requests (spec: MalformedKinds) and what their argument ranges over
+const MALFORMED: &[(&str, &str)] = &[
+    ("RemoveListenerBadType", "l"), ("ActivateBadType", "l"), ("DeactivateBadType", "l"), ("NoType", ""), ("ForeignKind", ""),
+    ("ConfigureMetricsBad", ""), ("MetricDetailBadEnum", ""), ("AddHFrontBadPos", "f"), ("AddHFrontBadKind", "f"),
+    ("AddClusterBadEnums", "c"),
+];
 const BACKENDS: &[&str] = &["b1", "b2", "b3"];
 const WORKER_KINDS: &[&str] = &[
     "Status", "QueryHashes", "QueryDomain", "QueryMetrics", "ConfigureMetrics", "Logging", "SetMaxConn",
@@ -79,8 +86,18 @@ const WORKER_KINDS: &[&str] = &[
 ];
 
 fn random_request(rng: &mut Rng) -> (String, String) {
-    let family = rng.weighted(&[("listener", 32), ("front", 24), ("cluster", 22), ("worker", 18), ("stop", 4)]);
+    let family = rng.weighted(&[("listener", 30), ("front", 24), ("cluster", 22), ("worker", 14), ("malformed", 8), ("stop", 4)]);
     match family {
+        "malformed" => {
+            let (k, arg) = *rng.pick(MALFORMED);
+            let a = match arg {
+                "l" => *rng.pick(LISTENERS),
+                "f" => *rng.pick(HFRONTS),
+                "c" => *rng.pick(CLUSTERS),
+                _ => "",
+            };
+            (k.to_string(), a.to_string())
+        }
         "listener" => {
             let k = rng.weighted(&[
                 ("AddListener", 30), ("Activate", 30), ("Deactivate", 12), ("RemoveListener", 12),
@@ -93,13 +110,14 @@ fn random_request(rng: &mut Rng) -> (String, String) {
             (k.to_string(), l.to_string())
         }
         "front" => {
-            let k = rng.weighted(&[("AddHFront", 40), ("RemoveHFront", 20), ("AddTFront", 25), ("RemoveTFront", 15)]);
-            let a = if k.contains("HFront") { *rng.pick(HFRONTS) } else { *rng.pick(TFRONTS) };
+            let k = rng.weighted(&[("AddHFront", 34), ("RemoveHFront", 16), ("AddTFront", 20), ("RemoveTFront", 10),
+                                   ("AddUFront", 14), ("RemoveUFront", 6)]);
+            let a = if k.contains("HFront") { *rng.pick(HFRONTS) } else if k.contains("TFront") { *rng.pick(TFRONTS) } else { *rng.pick(UFRONTS) };
             (k.to_string(), a.to_string())
         }
         "cluster" => {
             let k = rng.weighted(&[
-                ("AddCluster", 20), ("RemoveCluster", 8), ("AddBackend", 30), ("RemoveBackend", 12), ("SetHc", 4),
+                ("AddCluster", 14), ("AddClusterAlt", 8), ("RemoveCluster", 8), ("AddBackend", 30), ("RemoveBackend", 12), ("SetHc", 4),
                 ("SetHcBad", 3), ("RemoveHc", 3), ("AddClusterBadHc", 3), ("QueryCluster", 8),
             ]);
             let a = if k.contains("Backend") { *rng.pick(BACKENDS) } else { *rng.pick(CLUSTERS) };
@@ -129,9 +147,12 @@ fn drive(run: u64, seed: u64, index_base: u64, port: u16, quiet: Duration) -> Ru
     // scenario of the run: "sat" = the accept gate closes (max_connections = 2) and a connection
     // is pending when its listener is deactivated / removed; "keep" = a client connection is held
     // on a listener while that listener is removed; otherwise random batches only
+    // "shared" = one cluster published on two listeners of ONE kind (udp / tcp / http), then redefined,
+    // removed, its backends and frontends changed, with a look through EACH listener after every step
     let scenario = match rng.below(100) {
-        0..=11 => "sat",
-        12..=31 => "keep",
+        0..=9 => "sat",
+        10..=25 => "keep",
+        26..=53 => "shared",
         _ => "random",
     };
     let mut w = if scenario == "sat" {
@@ -158,7 +179,10 @@ fn drive(run: u64, seed: u64, index_base: u64, port: u16, quiet: Duration) -> Ru
         let extra = 2 * clients_open + 2;
         let mut ids = Vec::new();
         for (k, a) in &batch {
-            let request: Request = wctl::build_request(k, a, &ad).into();
+            let request: Request = wctl::build_request_full(k, a, &ad);
+            // the main process's side of the same sequence (only used to decide how long a datagram
+            // probe is waited for, never for a verdict)
+            let _ = catch_unwind(AssertUnwindSafe(|| w.state.dispatch(&request)));
             let id = w.send_raw(request);
             reqs.push((k.clone(), a.clone()));
             ev.push(json!({"ev": "send", "run": run, "id": reqs.len(), "k": k, "a": a}));
@@ -211,8 +235,108 @@ fn drive(run: u64, seed: u64, index_base: u64, port: u16, quiet: Duration) -> Ru
     };
 
     let rq = |k: &str, a: &str| (k.to_string(), a.to_string());
+    // the udp data path: every backend of the universe also listens for datagrams
+    let mut udp_mocks = wctl::UdpMocks::start(&ad, &all_backends);
+    let udp_ls = wctl::udp_listeners(&ad, &listeners);
+    let mut udp_flows = 0usize;
+    // What clients see now: connect / HTTP / TCP probes on every listener, then one datagram of a new
+    // flow through every udp listener. Between sending the datagrams and looking at the backends a
+    // Status request makes a round trip on the command channel: the worker has handled the datagrams
+    // by then. A datagram the main-process side of the sequence says should be delivered is waited
+    // for (a late look could only turn a delivery into a "drop"); returns the number of connections
+    // and flows whose worker-side teardown may still be pending.
+    let observe = |w: &mut Worker, ev: &mut Vec<Value>, reqs: &mut Vec<(String, String)>, seen_cmds: &mut usize, n_resp: &mut u64,
+                   n_probe: &mut u64, held: usize, udp_mocks: &mut wctl::UdpMocks, udp_flows: &mut usize| -> usize {
+        let seen = wctl::run_probes(&ad, &listeners, quiet);
+        let mut conns = 0usize;
+        for (l, m) in seen {
+            for (h, out) in m {
+                if out != "refused" {
+                    conns += 1;
+                }
+                ev.push(json!({"ev": "probe", "run": run, "l": l, "h": h, "out": out}));
+                *n_probe += 1;
+            }
+        }
+        if !udp_ls.is_empty() && !w.is_finished() {
+            let expect: Vec<bool> = udp_ls.iter().map(|l| udp_expected(&w.state, &ad, l)).collect();
+            let shots: Vec<wctl::UdpShot> = udp_ls.iter().map(|l| wctl::udp_shoot(&ad, l)).collect();
+            let _ = do_batch(w, vec![("Status".to_string(), String::new())], ev, reqs, held + conns + *udp_flows + shots.len(), seen_cmds, n_resp);
+            let outs = wctl::udp_collect(udp_mocks, &shots, &expect, Duration::from_millis(3000).max(quiet), Duration::from_millis(200));
+            for (l, o) in udp_ls.iter().zip(outs) {
+                if o != "drop" {
+                    *udp_flows += 1;
+                }
+                ev.push(json!({"ev": "probe", "run": run, "l": l, "h": "d", "out": o}));
+                *n_probe += 1;
+            }
+        }
+        conns + *udp_flows
+    };
+    // the worker's queryable view of both clusters, in the spec's terms
+    let views = |w: &mut Worker, ev: &mut Vec<Value>, reqs: &mut Vec<(String, String)>, seen_cmds: &mut usize, n_resp: &mut u64, held: usize| {
+        let answers = do_batch(w, CLUSTERS.iter().map(|c| ("QueryCluster".to_string(), c.to_string())).collect(), ev, reqs, held, seen_cmds, n_resp);
+        for (i, c) in CLUSTERS.iter().enumerate() {
+            let id = format!("{}-{}", name, reqs.len() - CLUSTERS.len() + i + 1);
+            let info = answers
+                .iter()
+                .find(|r| r.id == id && r.status == ResponseStatus::Ok as i32)
+                .and_then(|r| r.content.clone())
+                .and_then(|c| c.content_type);
+            if let Some(ContentType::Clusters(ci)) = info {
+                ev.push(wctl::view_event(run, c, &ci.vec, &ad));
+            }
+        }
+    };
     let mut batches = batches;
-    if scenario == "sat" {
+    if scenario == "shared" {
+        let kind = *rng.pick(&["udp", "udp", "tcp", "http"]);
+        let (l1, l2, fa, fb, addk, remk) = match kind {
+            "udp" => ("uE", "uF", "u1", "u2", "AddUFront", "RemoveUFront"),
+            "tcp" => ("tC", "tG", "t1", "t3", "AddTFront", "RemoveTFront"),
+            _ => ("hA", "hB", "f1", "f4", "AddHFront", "RemoveHFront"),
+        };
+        let mut setup = vec![rq("AddListener", l1), rq("Activate", l1), rq("AddListener", l2), rq("Activate", l2)];
+        let first_def = if rng.below(2) == 0 { "AddCluster" } else { "AddClusterAlt" };
+        let cluster_first = rng.below(2) == 0;
+        if cluster_first {
+            setup.push(rq(first_def, "c1"));
+        }
+        if rng.below(2) == 0 {
+            setup.push(rq(addk, fa));
+            setup.push(rq(addk, fb));
+        } else {
+            setup.push(rq(addk, fb));
+            setup.push(rq(addk, fa));
+        }
+        if !cluster_first && rng.below(4) != 0 {
+            setup.push(rq(first_def, "c1"));
+        }
+        setup.push(rq("AddBackend", "b1"));
+        if rng.below(3) == 0 {
+            setup.push(rq("AddBackend", "b3"));
+        }
+        let _ = do_batch(&mut w, setup, &mut ev, &mut reqs, 0, &mut seen_cmds, &mut n_resp);
+        views(&mut w, &mut ev, &mut reqs, &mut seen_cmds, &mut n_resp, probe_conns);
+        probe_conns = observe(&mut w, &mut ev, &mut reqs, &mut seen_cmds, &mut n_resp, &mut n_probe, 0, &mut udp_mocks, &mut udp_flows);
+        for _ in 0..(3 + rng.below(4)) {
+            let k = rng.weighted(&[
+                ("AddCluster", 20), ("AddClusterAlt", 24), ("RemoveCluster", 20), ("AddBackend", 8), ("RemoveBackend", 8),
+                ("RemoveFront", 6), ("AddFront", 8), ("UpdateListener", 6),
+            ]);
+            let step = match k {
+                "AddBackend" | "RemoveBackend" => rq(k, *rng.pick(&["b1", "b3"])),
+                "RemoveFront" => rq(remk, *rng.pick(&[fa, fb])),
+                "AddFront" => rq(addk, *rng.pick(&[fa, fb])),
+                "UpdateListener" => rq(k, *rng.pick(&[l1, l2])),
+                _ => rq(k, "c1"),
+            };
+            let _ = do_batch(&mut w, vec![step], &mut ev, &mut reqs, probe_conns, &mut seen_cmds, &mut n_resp);
+            views(&mut w, &mut ev, &mut reqs, &mut seen_cmds, &mut n_resp, probe_conns);
+            probe_conns = observe(&mut w, &mut ev, &mut reqs, &mut seen_cmds, &mut n_resp, &mut n_probe, 0, &mut udp_mocks, &mut udp_flows);
+        }
+        batches = 0;
+    } else if scenario == "sat" {
         let _ = do_batch(&mut w, vec![rq("AddListener", "hA"), rq("Activate", "hA")], &mut ev, &mut reqs, 0, &mut seen_cmds, &mut n_resp);
         let target = ad.listener("hA").1;
         let mut held: Vec<TcpStream> = Vec::new();
@@ -259,17 +383,7 @@ fn drive(run: u64, seed: u64, index_base: u64, port: u16, quiet: Duration) -> Ru
         if wctl::peek_events(&name).iter().any(|c| c.verb == "ReturnListenSockets") {
             wctl::drain_scm(w.scm_main_to_worker.raw_fd());
         }
-        let seen = wctl::run_probes(&ad, &listeners, quiet);
-        probe_conns = 0;
-        for (l2, m) in seen {
-            for (h, out) in m {
-                if out != "refused" {
-                    probe_conns += 1;
-                }
-                ev.push(json!({"ev": "probe", "run": run, "l": l2, "h": h, "out": out}));
-                n_probe += 1;
-            }
-        }
+        probe_conns = observe(&mut w, &mut ev, &mut reqs, &mut seen_cmds, &mut n_resp, &mut n_probe, clients.len(), &mut udp_mocks, &mut udp_flows);
     }
     // most runs start with a set-up batch (shuffled, still back-to-back on the real channel) so
     // that the random requests that follow meet listeners, clusters, routes and backends
@@ -362,34 +476,8 @@ fn drive(run: u64, seed: u64, index_base: u64, port: u16, quiet: Duration) -> Ru
         if wctl::peek_events(&name).iter().any(|c| c.verb == "ReturnListenSockets") {
             wctl::drain_scm(w.scm_main_to_worker.raw_fd());
         }
-        // the worker's queryable view of both clusters, in the spec's terms
-        let answers = do_batch(
-            &mut w,
-            CLUSTERS.iter().map(|c| ("QueryCluster".to_string(), c.to_string())).collect(),
-            &mut ev, &mut reqs, clients.len() + probe_conns, &mut seen_cmds, &mut n_resp,
-        );
-        for (i, c) in CLUSTERS.iter().enumerate() {
-            let id = format!("{}-{}", name, reqs.len() - CLUSTERS.len() + i + 1);
-            let info = answers
-                .iter()
-                .find(|r| r.id == id && r.status == ResponseStatus::Ok as i32)
-                .and_then(|r| r.content.clone())
-                .and_then(|c| c.content_type);
-            if let Some(ContentType::Clusters(ci)) = info {
-                ev.push(wctl::view_event(run, c, &ci.vec, &ad));
-            }
-        }
-        let seen = wctl::run_probes(&ad, &listeners, quiet);
-        probe_conns = 0;
-        for (l, m) in seen {
-            for (h, out) in m {
-                if out != "refused" {
-                    probe_conns += 1;
-                }
-                ev.push(json!({"ev": "probe", "run": run, "l": l, "h": h, "out": out}));
-                n_probe += 1;
-            }
-        }
+        views(&mut w, &mut ev, &mut reqs, &mut seen_cmds, &mut n_resp, clients.len() + probe_conns);
+        probe_conns = observe(&mut w, &mut ev, &mut reqs, &mut seen_cmds, &mut n_resp, &mut n_probe, clients.len(), &mut udp_mocks, &mut udp_flows);
     }
     if !stopped && !w.is_finished() {
         if !stop_with_client {
@@ -399,7 +487,7 @@ fn drive(run: u64, seed: u64, index_base: u64, port: u16, quiet: Duration) -> Ru
     }
     // the final answer of a soft stop arrives when the last session is gone
     let mut tail: Vec<WorkerResponse> = Vec::new();
-    let deadline = Instant::now() + Duration::from_secs(6);
+    let deadline = Instant::now() + Duration::from_secs(6).max(quiet * 3 / 2);
     while Instant::now() < deadline {
         match w.read(Duration::from_millis(50)) {
             Some(r) => tail.push(r),
@@ -447,6 +535,17 @@ fn drive(run: u64, seed: u64, index_base: u64, port: u16, quiet: Duration) -> Ru
     Run { events: ev, requests: reqs.len() as u64, responses: n_resp, probes: n_probe, exit }
 }
 
+/// Does the main-process side of the sequence say that a datagram through udp listener `l` finds a
+/// backend? (a hint for how long the probe waits, never a verdict)
+fn udp_expected(state: &ConfigState, ad: &Addrs, l: &str) -> bool {
+    let addr = ad.listener(l).1;
+    let active = state.udp_listeners.get(&addr).map(|x| x.active).unwrap_or(false);
+    active
+        && state.udp_fronts.iter().any(|(c, v)| {
+            v.iter().any(|f| f.address == addr) && state.backends.get(c).map(|b| !b.is_empty()).unwrap_or(false)
+        })
+}
+
 /// One back-to-back batch on worker `w`: `send` events, then the worker thread's own `cmd` events
 /// (hook, worker order), then the `resp` events (channel order). Returns the responses.
 #[allow(clippy::too_many_arguments)]
@@ -456,7 +555,7 @@ fn batch_events(
 ) -> Vec<WorkerResponse> {
     let mut ids = Vec::new();
     for (k, a) in batch {
-        let request: Request = wctl::build_request(k, a, ad).into();
+        let request: Request = wctl::build_request_full(k, a, ad);
         let id = w.send_raw(request);
         reqs.push((k.clone(), a.clone()));
         ev.push(json!({"ev": "send", "run": run, "id": reqs.len(), "k": k, "a": a}));
@@ -643,7 +742,7 @@ fn drive_fault(run: u64, seed: u64, index_base: u64, port: u16, quiet: Duration)
         let _ = batch_events(&mut w, &name, run, &ad, &[rq("SoftStop", "")], &mut ev, &mut reqs, 2 * probe_conns + 2, &mut seen_cmds, &mut n_resp, quiet);
     }
     let mut tail: Vec<WorkerResponse> = Vec::new();
-    let deadline = Instant::now() + Duration::from_secs(6);
+    let deadline = Instant::now() + Duration::from_secs(6).max(quiet * 3 / 2);
     while Instant::now() < deadline {
         match w.read(Duration::from_millis(50)) {
             Some(r) => tail.push(r),
